@@ -12,7 +12,8 @@ def key(case, variant, tag, step):
 
 
 def variants(idx):
-    return dict(engine=["pickle", "csv"][idx % 2], shuffle=[False, 3, False, True][idx % 4], batchsize=[1, 2, 5][idx % 3])
+    return dict(engine=["pickle", "csv"][idx % 2], shuffle=[False, 3, False, True][idx % 4], batchsize=[1, 2, 5][idx % 3],
+                nan_point=(idx % 3 == 1))
 
 
 def random_choice_runs(rep, n):
@@ -42,6 +43,8 @@ def random_choice_runs(rep, n):
                                       key=dict(tag="rc_append"))
                     break
                 for r in o["disk"][len(prev):]:
+                    if r[2] == -2 and w.nan_point and (r[0], r[1]) == (2, 2):
+                        continue
                     if r[2] != harvest.VER[0] or r[0] not in ((over or {}).get("a") or [1, 2, 3]) or r[1] not in [1, 2, 3]:
                         # (an override of one run must not leak into the next: then a would be 7 or 8 here)
                         rep.add_violation(case, "np.random.choice sampling: row %r not from the allowed choices / wrong outputs" % (r,),
